@@ -56,6 +56,7 @@ func (idx *BigIndexWriter) AddRow(values map[string]string) (uint32, error) {
 	defer func() {
 		idx.nextRowID++
 	}()
+	verifPoint("bigwriter.addrow", uint64(rowID))
 
 	for k, v := range values {
 		valueIdx := idx.schema.add(k, v)
@@ -77,6 +78,7 @@ func (idx *BigIndexWriter) AddRow(values map[string]string) (uint32, error) {
 		if err != nil {
 			return 0, fmt.Errorf("failed to commit: %w", err)
 		}
+		verifPoint("bigwriter.tempcommit", uint64(rowID))
 
 		idx.tempTx, err = idx.tempDB.Begin(true)
 		if err != nil {
@@ -91,6 +93,7 @@ func (idx *BigIndexWriter) Flush() error {
 	if err := idx.tempTx.Commit(); err != nil {
 		return fmt.Errorf("failed to commit: %w", err)
 	}
+	verifPoint("bigwriter.tempcommit.final", uint64(idx.nextRowID))
 
 	tempTx, err := idx.tempDB.Begin(false)
 	if err != nil {
@@ -198,6 +201,7 @@ func (idx *BigIndexWriter) Flush() error {
 	if err := tx.Commit(); err != nil {
 		return fmt.Errorf("failed to commit changes: %w", err)
 	}
+	verifPoint("bigwriter.commit.final", uint64(idx.nextRowID))
 
 	return nil
 }
